@@ -207,6 +207,16 @@ def compare_solutions(ctx, c, net, ref_ok, ref_v, ok, v, sig):
         ctx.count('xfmt:abnormal_solution_not_compared')
         return
     if ref_ok != ok:
+        # a differing verdict is only a finding where the data have a solution in the normal range by an independent
+        # Newton (then both descriptions must converge); elsewhere convergence hinges on rounding of the iterates
+        try:
+            okn, Vn, _ = opf.newton_pf(net)
+            normal = bool(okn) and float(np.min(np.abs(Vn))) >= 0.9 and float(np.max(np.abs(Vn))) <= 1.1
+        except Exception:
+            normal = False
+        if not normal:
+            ctx.count('xfmt:verdict_differs_outside_normal_range_not_judged')
+            return
         ctx.fail('convergence_differs_between_formats', dict(fmt=c['fmt'], native=ref_ok, loaded=ok, net=c01._compact(net)), sig=sig)
         return
     if not ok:
@@ -346,7 +356,11 @@ def roundtrip_case(ctx, c):
                     if not viol:
                         return
     ok1, v1 = solve_loaded(ss2)
-    if ok0 != ok1:
+    normal = bool(ok0) and bool(v0) and min(x[0] for x in v0.values()) >= 0.9 and max(x[0] for x in v0.values()) <= 1.1 \
+        and max(abs(x[1]) for x in v0.values()) < 3.0
+    if not normal:
+        ctx.count('rt:solution_outside_normal_range_not_compared')
+    elif ok0 != ok1:
         ctx.fail('power_flow_verdict_changed_by_round_trip', dict(case=_b(c), before=ok0, after=ok1), sig=sig)
     elif ok0:
         for i in v0:
